@@ -25,7 +25,9 @@ def _sh(cmd, cwd, timeout, env):
 
 def run_demo(src, wt, meta):
     if (src / "demo.sh").exists():
-        return sh(["sh", str(src / "demo.sh"), str(wt)], cwd=str(wt))
+        first = (src / "demo.sh").read_text(errors="replace").splitlines()[:1]
+        shell = "bash" if first and "bash" in first[0] else "sh"
+        return sh([shell, str(src / "demo.sh"), str(wt)], cwd=str(wt))
     tests = list(src.glob("*_test.go"))
     if tests:
         text = json.dumps(meta)
